@@ -178,6 +178,7 @@ func zzLive() int {
 }
 func zzUnwind(n int, isBug bool)   {}
 func zzTimers(n int)               {}
+func zzUnwindIn(fn string, n int, isBug bool) {}
 func zzClockAdvance(d int64)       { }
 func zzSameObject(a, b interface{}) bool { return a == b }
 func zzAliases(a, b []byte) bool {
